@@ -23,6 +23,7 @@ use rustc_middle::mir::{
     self, AggregateKind, BasicBlockData, Body, Const, Operand, Place, ProjectionElem, Rvalue,
     StatementKind, TerminatorKind,
 };
+use rustc_middle::ty::print::PrintTraitRefExt as _;
 use rustc_middle::ty::{self, Instance, Ty, TyCtxt, TypingEnv};
 use std::fmt::Write as _;
 
@@ -82,8 +83,85 @@ struct Cx<'tcx> {
 }
 
 impl<'tcx> Cx<'tcx> {
+    /// Definition path, printed so that it does not depend on *which module* an impl block or a nested item sits in:
+    /// items of a trait impl are `<Self as Trait<..>>::name`, items of an inherent impl are `path::to::Type::<Args>::name`
+    /// (rustc prints `module::<impl ..>::name` when the impl lives in another module than its type), and items nested in
+    /// such items (closures, consts, statics) hang off the canonical path of their parent.
     fn path(&self, d: DefId) -> String {
-        self.tcx.def_path_str(d)
+        self.path_with(d, None)
+    }
+
+    fn own_args(&self, d: DefId, args: Option<ty::GenericArgsRef<'tcx>>) -> String {
+        // the item's own (non-parent) generic arguments, `::<..>` as rustc prints them for a value path
+        if let Some(args) = args {
+            let g = self.tcx.generics_of(d);
+            let own: Vec<String> = args
+                .iter()
+                .skip(g.parent_count)
+                .filter(|a| a.as_region().is_none())
+                .map(|a| format!("{a}"))
+                .collect();
+            if !own.is_empty() {
+                return format!("::<{}>", own.join(", "));
+            }
+        }
+        String::new()
+    }
+
+    fn path_with(&self, d: DefId, args: Option<ty::GenericArgsRef<'tcx>>) -> String {
+        let tcx = self.tcx;
+        let plain = || match args {
+            Some(a) => tcx.def_path_str_with_args(d, a),
+            None => tcx.def_path_str(d),
+        };
+        if !d.is_local() {
+            return plain();
+        }
+        let Some(parent) = tcx.opt_parent(d) else { return plain() };
+        match tcx.def_kind(parent) {
+            DefKind::Impl { .. } => {
+                let Some(name) = tcx.opt_item_name(d) else { return plain() };
+                let pargs = args.map(|a| {
+                    let n = tcx.generics_of(parent).count();
+                    tcx.mk_args(&a[..n.min(a.len())])
+                });
+                let self_ty = match pargs {
+                    Some(pa) => tcx.type_of(parent).instantiate(tcx, pa).skip_norm_wip(),
+                    None => tcx.type_of(parent).instantiate_identity().skip_norm_wip(),
+                };
+                let own = self.own_args(d, args);
+                if let Some(tr) = tcx.impl_opt_trait_ref(parent) {
+                    let tr = match pargs {
+                        Some(pa) => tr.instantiate(tcx, pa).skip_norm_wip(),
+                        None => tr.instantiate_identity().skip_norm_wip(),
+                    };
+                    return format!("<{} as {}>::{}{}", self_ty, tr.print_only_trait_path(), name, own);
+                }
+                if let ty::Adt(adt, aargs) = self_ty.kind() {
+                    let ap = tcx.def_path_str(adt.did());
+                    let shown: Vec<String> =
+                        aargs.iter().filter(|a| a.as_region().is_none()).map(|a| format!("{a}")).collect();
+                    if shown.is_empty() {
+                        return format!("{}::{}{}", ap, name, own);
+                    }
+                    return format!("{}::<{}>::{}{}", ap, shown.join(", "), name, own);
+                }
+                format!("<{}>::{}{}", self_ty, name, own)
+            }
+            DefKind::Mod => plain(),
+            _ => {
+                // nested item: canonical parent + the last component as rustc prints it
+                let full = tcx.def_path_str(d);
+                let pfull = tcx.def_path_str(parent);
+                if let Some(suffix) = full.strip_prefix(&pfull) {
+                    let pp = self.path_with(parent, None);
+                    if pp != pfull {
+                        return format!("{}{}", pp, suffix);
+                    }
+                }
+                plain()
+            }
+        }
     }
     fn span(&self, sp: rustc_span::Span) -> String {
         let sm = self.tcx.sess.source_map();
@@ -345,9 +423,9 @@ impl<'tcx> Cx<'tcx> {
             if let Some((d, args)) = self.fn_def_of(&c.const_) {
                 let mut f: Vec<(&str, String)> = vec![
                     ("def", esc(&self.path(d))),
-                    ("def_noargs", esc(&self.tcx.def_path_str_with_args(d, &[]))),
+                    ("def_noargs", esc(&self.path(d))),
                     ("args", arr(args.iter().map(|a| esc(&format!("{a}"))).collect())),
-                    ("text", esc(&format!("{}", c.const_))),
+                    ("text", esc(&if d.is_local() && self.tcx.impl_of_assoc(d).is_some() { self.path_with(d, Some(args)) } else { format!("{}", c.const_) })),
                     ("krate", esc(&self.tcx.crate_name(d.krate).to_string())),
                 ];
                 // trait method?
@@ -371,7 +449,7 @@ impl<'tcx> Cx<'tcx> {
                         arr(inst.args.iter().map(|a| esc(&format!("{a}"))).collect()),
                     ));
                     f.push(("resolved_kind", esc(&format!("{:?}", std::mem::discriminant(&inst.def)))));
-                    f.push(("resolved_text", esc(&format!("{inst}"))));
+                    f.push(("resolved_text", esc(&if rd.is_local() && self.tcx.impl_of_assoc(rd).is_some() { self.path_with(rd, Some(inst.args)) } else { format!("{inst}") })));
                     f.push(("resolved_local", format!("{}", rd.is_local())));
                     if let Some(imp) = self.tcx.impl_of_assoc(rd) {
                         f.push(("resolved_impl_self", esc(&self.ty(
@@ -840,6 +918,52 @@ impl Callbacks for Facts {
             }
             v
         };
+        // named items and the paths under which they can be named inside the crate (definitions and `use` re-exports):
+        // lets the rules recognise an item that was moved to another module but is still reachable under its former path
+        let mut names: Vec<String> = Vec::new();
+        {
+            let mut mods: Vec<LocalDefId> = vec![rustc_hir::def_id::CRATE_DEF_ID];
+            for d in tcx.hir_crate_items(()).definitions() {
+                let did = d.to_def_id();
+                let kind = tcx.def_kind(did);
+                let named = matches!(
+                    kind,
+                    DefKind::Mod | DefKind::Struct | DefKind::Enum | DefKind::Union | DefKind::Trait | DefKind::Fn
+                        | DefKind::Static { .. } | DefKind::Const { .. } | DefKind::TyAlias | DefKind::Macro(..)
+                );
+                if !named {
+                    continue;
+                }
+                if let Some(p) = tcx.opt_parent(did) {
+                    if !matches!(tcx.def_kind(p), DefKind::Mod) {
+                        continue;
+                    }
+                }
+                names.push(obj(&[("path", esc(&tcx.def_path_str(did))), ("kind", esc(&format!("{kind:?}"))), ("def", "true".into())]));
+                if matches!(kind, DefKind::Mod) {
+                    mods.push(d);
+                }
+            }
+            for m in mods {
+                let mp = if m == rustc_hir::def_id::CRATE_DEF_ID { String::new() } else { tcx.def_path_str(m.to_def_id()) };
+                for ch in tcx.module_children_local(m) {
+                    if ch.reexport_chain.is_empty() {
+                        continue;
+                    }
+                    if let rustc_hir::def::Res::Def(k, target) = ch.res {
+                        if target.krate != rustc_hir::def_id::LOCAL_CRATE {
+                            continue;
+                        }
+                        let alias = if mp.is_empty() { ch.ident.to_string() } else { format!("{}::{}", mp, ch.ident) };
+                        names.push(obj(&[
+                            ("path", esc(&alias)),
+                            ("kind", esc(&format!("{k:?}"))),
+                            ("target", esc(&tcx.def_path_str(target))),
+                        ]));
+                    }
+                }
+            }
+        }
         let out = obj(&[
             ("crate", esc(&krate)),
             ("nonce", esc(&nonce)),
@@ -851,6 +975,7 @@ impl Callbacks for Facts {
             ("adts", arr(adts)),
             ("impls", arr(impls)),
             ("evals", arr(evals)),
+            ("names", arr(names)),
         ]);
         let ctype = if tcx.crate_types().iter().any(|t| format!("{t:?}") == "ProcMacro") {
             "procmacro"
